@@ -156,6 +156,21 @@ Definition chain_ok (w : list (string * stmt)) : bool :=
   nodup_str (map fst w) && chain_scoped w.
 
 (* ------------------------------------------------------------------ *)
+(* fuel that is enough                                                 *)
+(* ------------------------------------------------------------------ *)
+
+(* how deep arrays are nested directly inside arrays (objects are leaves: rows) *)
+Fixpoint adepth (v : value) : nat :=
+  match v with
+  | VArr l => S ((fix go (l : list value) : nat :=
+                    match l with [] => O | x :: r => Nat.max (adepth x) (go r) end) l)
+  | _ => O
+  end.
+
+(* the nesting depth of a list of source rows: 0 for a table proper *)
+Definition rdepth (rows : list value) : nat := fold_right (fun x acc => Nat.max (adepth x) acc) O rows.
+
+(* ------------------------------------------------------------------ *)
 (* EXISTS over a nested array; IN over a subquery                      *)
 (* ------------------------------------------------------------------ *)
 
